@@ -57,12 +57,11 @@ func (t *websocketTransport) Send(ctx context.Context, e envelope) error {
 		panic("nil envelope")
 	}
 
-	if err := t.ensureOpen(); err != nil {
+	// Use a local reference, since the transport can be closed while sending
+	conn, err := t.openConn()
+	if err != nil {
 		return err
 	}
-
-	// Use a local reference, since the transport can be closed while sending
-	conn := t.conn
 	errChan := make(chan error)
 	go func() {
 		errChan <- conn.WriteJSON(e)
@@ -97,12 +96,11 @@ func (t *websocketTransport) Receive(ctx context.Context) (envelope, error) {
 		panic("nil context")
 	}
 
-	if err := t.ensureOpen(); err != nil {
+	// Use a local reference, since the transport can be closed while receiving
+	conn, err := t.openConn()
+	if err != nil {
 		return nil, err
 	}
-
-	// Use a local reference, since the transport can be closed while receiving
-	conn := t.conn
 	rawChan := make(chan rawEnvelope)
 	errChan := make(chan error)
 	go func() {
@@ -133,11 +131,13 @@ func (t *websocketTransport) Receive(ctx context.Context) (envelope, error) {
 }
 
 func (t *websocketTransport) Close() error {
-	if err := t.ensureOpen(); err != nil {
+	// Use a local reference, since the transport can be closed by another goroutine meanwhile
+	conn, err := t.openConn()
+	if err != nil {
 		return err
 	}
 
-	err := t.conn.Close()
+	err = conn.Close()
 	t.conn = nil
 	return err
 }
@@ -184,12 +184,16 @@ func (t *websocketTransport) RemoteAddr() net.Addr {
 	return t.conn.RemoteAddr()
 }
 
-func (t *websocketTransport) ensureOpen() error {
-	if t.conn == nil {
-		return errors.New("transport is not open")
+// openConn returns the connection of the transport, if it is open. The callers should use the
+// returned reference instead of reading the field again, since the transport can be closed by
+// another goroutine at any moment.
+func (t *websocketTransport) openConn() (*websocket.Conn, error) {
+	conn := t.conn
+	if conn == nil {
+		return nil, errors.New("transport is not open")
 	}
 
-	return nil
+	return conn, nil
 }
 
 type WebsocketConfig struct {
